@@ -60,6 +60,11 @@ fn oracle(d: &Done) -> Option<String> {
         return Some("no run".into());
     }
     let first = &d.runs[0].1;
+    for (name, r) in &d.runs {
+        if let RRes::Bad(s) = r {
+            return Some(format!("run failed ({name}): {s}"));
+        }
+    }
     for (name, r) in &d.runs[1..] {
         if r != first {
             return Some(format!("run variants differ: {}={:?} vs {}={:?}", d.runs[0].0, first, name, r));
@@ -172,7 +177,7 @@ fn main() {
                 vcommon::quiet_panics();
                 loop {
                     let Some((i, chunk)) = queue.lock().unwrap().pop_front() else { break };
-                    let r = imp::eval_chunk(&prog_dir, i, chunk);
+                    let r: Result<Vec<Done>, String> = Ok(imp::eval_chunk_bisect(&prog_dir, i, chunk));
                     results.lock().unwrap().insert(i, r);
                 }
             });
